@@ -114,6 +114,9 @@ def run(repo, rep, tier):
     r6 = rep.rule("R1.6", "defs.combine returns a + b; defs.increment fills and returns its argument", floor=2)
     # partial results are also combined in place (`acc += part`, the Spark path, the containers' own `child += other_child` loops):
     # a += that does not update and return the receiver loses the chunk, so chunked aggregation differs from one pass
+    # a partial result that is merged must stay usable in another reduction schedule: a + b may not adopt children of a or b
+    rep.borrow(repo, "C06", {"R6.2": ("R1.10", "a + b and zero() share no fillable child with their operands (partials stay valid for other schedules)", 40)},
+               keep=lambda f: f.construct.endswith(".__add__") or f.construct.endswith(".zero"))
     rep.borrow(repo, "C07", {"R7.2": ("R1.8", "combining partial results with += keeps the receiver (every __iadd__ returns self)", 19),
                              "R7.1": ("R1.9", "+= merges every content field the way + does", 50)})
     for c in prims:
